@@ -287,11 +287,18 @@ def main(tier="quick", seed=0, procs=None, only=None):
     quads = [(q, "grid") for q in itertools.product([f32(v) for v in (0.0, -20.0, 89.0, -710.0, 1e4)], repeat=4)] if tier == "thorough" else []
     rng = np.random.default_rng(seed + 1)
     extra_rows = [(tuple(sv[j] for j in rng.choice(len(sv), size=int(rng.integers(2, 5)), replace=False)), "seeded") for _ in range(nseed)]
+    # just below the point where exp() of ONE element overflows in each floating dtype (log(finfo.max) = 88.72 / 709.78): no single term overflows there, a SUM of terms does --
+    # rows of two or three such values, and wide rows whose elements are further below the threshold
+    TH = [f32(v) for v in (88.5, 88.7, 709.5, 709.7)]
+    values += [(s * v, "threshold") for v in TH for s in (1.0, -1.0)]
+    threshold_rows = [((v, v), "threshold") for v in TH] + [((v, v, f32(0.0)), "threshold") for v in TH] + [((-v, -v), "threshold") for v in TH] + \
+                     [((TH[0], f32(88.0), f32(87.5)), "threshold"), ((TH[2], f32(709.0), f32(-709.0)), "threshold"),
+                      (tuple([f32(85.5)] * 64), "threshold"), (tuple([f32(706.0)] * 64), "threshold"), (tuple([f32(85.5)] * 63 + [f32(-85.5)]), "threshold")]
     run.bounds = {"magnitudes": MAGS, "values": "0 and +-each magnitude (19 float32 values), %d seeded values sign*10**U(-3,4)" % nseed,
                   "elementwise (sigmoid, tanh, selu)": "every value, shape (1,)",
                   "bce_with_logits": "every value x targets {0, float32(0.3), 1}; reductions none (1 element) and mean/sum (2 elements: the point and its cyclic successor)",
                   "rows (softmax, log_softmax, cross_entropy)": "all %d ordered pairs of the 19 values; all %d triples over %s%s; %d seeded rows of width 2-4; every label; "
-                  "reductions mean/sum over 2-row batches (row and its cyclic successor)" % (len(pairs), len(triples), tv, "; all %d 4-tuples over 5 values" % len(quads) if quads else "", nseed),
+                  "reductions mean/sum over 2-row batches (row and its cyclic successor); rows of 2-3 values just below log(finfo.max) of each dtype (88.5, 88.7, 709.5, 709.7) and 64-wide rows at 85.5 / 706" % (len(pairs), len(triples), tv, "; all %d 4-tuples over 5 values" % len(quads) if quads else "", nseed),
                   "layouts": "(1,C) dim=1 for every row; additionally dim=-1, 1-d dim=0 and (C,1) dim=0 for the pairs",
                   "upstream": "uniform 1 and -3; for softmax/log_softmax also alternating (1,-3,1,..)", "dtypes": ["float32", "float64"],
                   "forms": "functional and nn.Module forms; loss modules with reduction none/mean/sum", "tolerance": "2**-20*max(1,max|inputs|) (*max|g| for gradients)"}
@@ -311,6 +318,7 @@ def main(tier="quick", seed=0, procs=None, only=None):
         if quads:
             guarded(run, "rows/quads", ck.rows, quads, False)
         guarded(run, "rows/seeded", ck.rows, extra_rows, False)
+        guarded(run, "rows/threshold", ck.rows, threshold_rows, False)
         run.extra["cases"] = ck.n_cases
         run.extra["failure_classes"] = ck.C.flush()
     return run.finish()
